@@ -382,7 +382,9 @@ func (x *Exec) findCandidate(o *Oblig, workDir string, timeoutS int) *candidate 
 			extra += "(assert " + t + ")\n"
 		}
 	}
+	x.unfoldLevels = 6
 	q := x.buildQueryExtra(o, false, extra)
+	x.unfoldLevels = 0
 	var terms []string
 	for _, p := range x.fn.Params {
 		v := x.env0[p]
